@@ -89,6 +89,78 @@ class Lines(Stream):
             yield {"text": t, "lines": case["lines"], "err": case["err"]}
 
 
+class Labels(Stream):
+    """The source label given to the parser (source_info=, or file_name= next to the text) appears in every location the
+    unlabelled parse reports as "input line N": objects (also disabled ones), words, attribute errors, syntax errors.
+    Oracle only (the model carries lines, not labels)."""
+    name = "labels"
+    cluster = "Parse"
+
+    def __init__(self, ctx):
+        super().__init__(ctx)
+        self.fp = import_freephil()
+
+    def cases(self, rng, tier):
+        for c in Lines.cases(self, rng, "quick" if tier == "quick" else tier):
+            yield c["text"]
+            if tier == "quick" and rng.random() < 0.5:
+                continue
+
+    def wheres(self, **kw):
+        try:
+            t = self.fp.parse(**kw)
+        except BaseException as e:  # noqa
+            if isinstance(e, (KeyboardInterrupt, vlib.Timeout)):
+                raise
+            return ["err", vlib.exc_class(e), str(e)]
+        out = []
+
+        def walk(sc):
+            for o in sc.objects:
+                out.append("%s%s %s" % ("!" if o.is_disabled else "", o.name, o.where_str))
+                if o.is_definition:
+                    out.extend("  word %r%s" % (w.value, w.where_str()) for w in o.words)
+                else:
+                    walk(o)
+        walk(t)
+        return ["ok", out]
+
+    def impl(self, case):
+        import re
+        base = self.wheres(input_string=case)
+        for kw, lab in (({"source_info": "lbl.phil"}, "lbl.phil, line "), ({"file_name": "set.phil"}, 'file "set.phil", line ')):
+            got = self.wheres(input_string=case, **kw)
+            def relabel(x):
+                return re.sub(r"input line (\d+)", lambda m: lab + m.group(1), x)
+            if base[0] != got[0]:
+                return ["differs", sorted(kw)[0], base[:2], got[:2]]
+            if base[0] == "ok":
+                want = [relabel(x) for x in base[1]]
+                if want != got[1]:
+                    i = next(i for i, (a, b) in enumerate(zip(want + [None], got[1] + [None])) if a != b)
+                    return ["differs", sorted(kw)[0], (want + [None])[i], (got[1] + [None])[i]]
+            elif (base[1], relabel(base[2])) != (got[1], got[2]):
+                return ["differs", sorted(kw)[0], relabel(base[2])[:200], got[2][:200]]
+        return ["ok"]
+
+    def requests(self, case, o):
+        return []
+
+    def model(self, case, replies, o):
+        return o
+
+    def prop(self, case, o):
+        if o[0] == "differs":
+            return "with the label given as %s= a location reads %r, expected %r" % (o[1], o[3], o[2])
+        return None
+
+    def tag(self, case, o):
+        return o[0]
+
+    def shrink(self, case):
+        return pc.shrink_text(case)
+
+
 class SoupLines(Stream):
     """Arbitrary documents (token soup, mutated documents): every line number the implementation reports
     (objects, words, error) must be the one the model computes."""
@@ -199,6 +271,9 @@ class ValidateLines(Stream):
         super().__init__(ctx)
         self.fp = import_freephil()
         self.d_int = self.fp.parse("x = 1\n  .type = int\n").objects[0]
+        # further typed definitions: validate() must return a proxy (or raise RuntimeError / Sorry) for every text
+        self.others = self.fp.parse("b = True\n  .type = bool\nf = 1.5\n  .type = float(allow_none=False)\nc = *p q\n  .type = choice\n"
+                                    "  .optional = False\nn = 1 2\n  .type = ints(size_max=3)\ns = t\n  .type = str\nw = u\n").objects
 
     def corpus(self):
         return ["\n\n12 apples", "\n \nfirst \\\n second", "\n'open", "  \n\t\n 5", "", "\n\n"]
@@ -224,6 +299,12 @@ class ValidateLines(Stream):
             p = d.validate(input_string=case)
             if p.error_message is not None:
                 v = str(pc.err_line(p.error_message)) if hasattr(pc, "err_line") else None
+        for od in self.others:
+            try:
+                od.validate(input_string=case)
+                od.validate_and_format(input_string=case)
+            except (RuntimeError, self.fp.Sorry):
+                pass                                  # anything else propagates: the case did not complete
         return [t, v]
 
     def requests(self, case, o):
@@ -254,7 +335,7 @@ class ValidateLines(Stream):
 
 SPEC = {
     "clusters": ["Parse", "Tok", "Choice"],
-    "streams": [Lines, SoupLines, ScanForStart, ChoiceErrorLines, ValidateLines],
+    "streams": [Lines, Labels, SoupLines, ScanForStart, ChoiceErrorLines, ValidateLines],
     "rule": "renderings of random abstract trees by the layout sampler, which records the line of every emitted name and word "
             "(multi-line quoted words, continuations, ';', comments, off regions), plus malformed variants with a known faulty token and line; "
             "plus token soup / mutated documents where implementation and model must report identical lines; distinct = distinct text",
@@ -262,5 +343,5 @@ SPEC = {
                 "(error kind, line).  Unused-definition report lines are covered by C06's stream, value-error lines by C10's; the "
                 "'Not a possible choice' report of a value spread over several lines by stream choice_error_lines (Model/Choice.v)."],
     "modelled": "parser-level line propagation checked by correspondence; theorems are token-level (C15.v)",
-    "assumptions": ["text restricted to code points < 256", "source_info label not varied (None)"],
+    "assumptions": ["text restricted to code points < 256", "the model carries no source label: labels are checked by the oracle-only stream 'labels'"],
 }
